@@ -241,7 +241,7 @@ def run_tree(m, nodes, raise_at, catch_at, nthreads, reps, switch):
         mine.append('after the outermost call %s the context is %r, not the thread\'s original %r' % (
             'raised' if esc else 'returned', after, base))
       st = getattr(ag_ctx.stacks, 'control_status', None)
-      if st is not None and len(st) != 1:
+      if isinstance(st, list) and len(st) != 1:     # only where the implementation keeps a per-thread list
         mine.append('context stack depth is %d after the outermost call' % len(st))
         del st[1:]
       if esc != escapes:
